@@ -116,7 +116,7 @@ class MCallerHttp(MCaller):
         """
         if http_conn_adapters is None:
             http_conn_adapters = []
-        elif isinstance(http_conn_adapters, (list, tuple)):
+        elif not isinstance(http_conn_adapters, (list, tuple)):
             # it's a single adapter
             http_conn_adapters = [http_conn_adapters]
 
